@@ -265,17 +265,50 @@ def setup():
     return 0 if rc == 0 and rc2 == 0 else 1
 
 
-def run_harness(prop, cfg, tier, seed, rundir, extra=None):
-    """run every harness stage of the property; returns (per-stage results)"""
+def sh_group(cmd, cwd, timeout):
+    """like sh(), but the command runs in its own process group which is killed as a whole on timeout
+    (harness stages fork shard children); returns rc None on timeout"""
+    import signal
+    t0 = time.time()
+    p = subprocess.Popen(cmd, cwd=cwd, stdout=subprocess.PIPE, stderr=subprocess.STDOUT, text=True, env=ENV, start_new_session=True)
+    try:
+        out, _ = p.communicate(timeout=timeout)
+        return p.returncode, out, time.time() - t0
+    except subprocess.TimeoutExpired:
+        try:
+            os.killpg(p.pid, signal.SIGKILL)
+        except OSError:
+            pass
+        try:
+            out, _ = p.communicate(timeout=30)
+        except Exception:
+            out = ""
+        return None, out or "", time.time() - t0
+
+
+def run_harness(prop, cfg, tier, seed, rundir, extra=None, search_only=False, stage_timeout=None, deadline=None):
+    """run every harness stage of the property; returns (per-stage results).
+    search_only: the escalated pass — only the implementation-side oracles matter (report.json violations);
+    the Lean driver is not run again (the correspondence was compared at the quick tier), every stage is
+    bounded by `stage_timeout` seconds and no new stage starts after `deadline` (time.time() value); a
+    stage that runs out of time is skipped, it is not a failure."""
     stages = []
     bin_src = os.path.join(CACHE, "target", "release", "bvh")
     for st in cfg["stages"]:
-        sdir = os.path.join(rundir, st["name"])
+        if deadline is not None and time.time() > deadline:
+            break
+        sdir = os.path.join(rundir, st["name"] + ("-esc" if search_only else ""))
         shutil.rmtree(sdir, ignore_errors=True)
         os.makedirs(sdir)
         binname = "bvh" if st.get("profile", "release") == "release" else "bvh-" + st["profile"]
         cmd = [os.path.join(rundir, binname)] + st["cmd"] + ["--tier", tier, "--seed", str(seed), "--out", sdir] + (extra or [])
-        rc, out, dt = sh(cmd, cwd=sdir, timeout=st.get("timeout", 7200))
+        if search_only:
+            rc, out, dt = sh_group(cmd, sdir, stage_timeout or 600)
+            if rc is None:
+                stages.append({"name": st["name"], "rc": 0, "wall_s": round(dt, 1), "log_tail": "", "timed_out": True})
+                continue
+        else:
+            rc, out, dt = sh(cmd, cwd=sdir, timeout=st.get("timeout", 7200))
         res = {"name": st["name"], "rc": rc, "wall_s": round(dt, 1), "log_tail": out[-3000:]}
         rp = os.path.join(sdir, "report.json")
         if os.path.exists(rp):
@@ -284,7 +317,13 @@ def run_harness(prop, cfg, tier, seed, rundir, extra=None):
             except Exception as e:
                 res["report_error"] = str(e)
         ops = os.path.join(sdir, "ops.txt")
-        if os.path.exists(ops) and os.path.getsize(ops) > 0:
+        if search_only:
+            for f in ("ops.txt", "impl.txt"):
+                try:
+                    os.remove(os.path.join(sdir, f))
+                except OSError:
+                    pass
+        if not search_only and os.path.exists(ops) and os.path.getsize(ops) > 0:
             t1 = time.time()
             lines, model, crashed = run_driver(ops, os.path.join(sdir, "model.txt"))
             impl = open(os.path.join(sdir, "impl.txt")).read().split("\n")
@@ -394,9 +433,28 @@ def check(prop, tier, seed, replay=None):
         if (broken or dis or moved) and not found and tier == "quick":
             notes.append("escalated search to thorough budget (%s without a failing input)" % (
                 "broken obligation / disagreement" if (broken or dis) else "anchored functions changed since the pinned baseline"))
-            stages2 = run_harness(prop, cfg, "thorough", seed, os.path.join(rundir), None)
-            if any(s.get("report", {}).get("violations") for s in stages2):
-                stages = stages2
+            # bounded: thorough budget of the implementation-side search only, <= ESC_STAGE s per stage and
+            # <= ESC_TOTAL s in all (a harmless rewrite of an anchored function must not cost an hour)
+            esc_stage = int(os.environ.get("VERIF_ESCALATE_STAGE_S", "420"))
+            esc_total = int(os.environ.get("VERIF_ESCALATE_TOTAL_S", "900"))
+            stages2 = run_harness(prop, cfg, "thorough", seed, os.path.join(rundir), None, search_only=True,
+                                  stage_timeout=esc_stage, deadline=time.time() + esc_total)
+            by_name = {s["name"]: s for s in stages}
+            for s2 in stages2:
+                if s2.get("timed_out"):
+                    notes.append("escalated stage %s stopped after %.0f s (budget); its quick result stands" % (s2["name"], s2["wall_s"]))
+                    continue
+                v2 = s2.get("report", {}).get("violations") or []
+                s1 = by_name.get(s2["name"])
+                if s1 is None:
+                    continue
+                s1["escalated_wall_s"] = s2["wall_s"]
+                if s2["rc"] != 0 and "report" not in s2:
+                    notes.append("escalated stage %s crashed rc=%s: %s" % (s2["name"], s2["rc"], s2["log_tail"][-300:]))
+                if v2:
+                    s1.setdefault("report", {}).setdefault("violations", [])
+                    s1["report"]["violations"] = list(s1["report"]["violations"]) + v2
+                    s1["report"]["evaluations"] = s1["report"].get("evaluations", 0) + s2.get("report", {}).get("evaluations", 0)
     # ---- verdict
     known = load_known()
     violations = []
